@@ -1,6 +1,6 @@
 #!/bin/bash
 # Real-code demonstrations of the genuine defects found by the contract checks (DESIGN.md §8).
-# usage: demo.sh <xcp-binary> <F1..F13>      exit 0 = behaviour correct, exit 1 = defect shown
+# usage: demo.sh <xcp-binary> <F1..F14>      exit 0 = behaviour correct, exit 1 = defect shown
 X=$1; WHICH=$2
 D=$(mktemp -d /tmp/xcpdemo.XXXXXX); trap 'rm -rf "$D"' EXIT; cd "$D" || exit 2
 case "$WHICH" in
@@ -79,5 +79,10 @@ F13) # --gitignore: a directory-only pattern excluded a symbolic link to a direc
     timeout 120 "$X" -r --gitignore src out >/dev/null 2>&1; rc=$?
     if [ $rc = 0 ] && [ ! -L out/src/build ]; then echo "DEFECT F13: link 'build' (-> real/) was excluded by the pattern 'build/': $(ls -A out/src | tr '\n' ' ')"; exit 1; fi
     echo "F13 ok (exit $rc)"; exit 0;;
+F14) # --glob: a pattern that matches nothing was dropped silently among valid ones
+    mkdir out; echo a > a
+    timeout 120 "$X" -g a missing out >/dev/null 2>&1; rc=$?
+    if [ $rc = 0 ] || [ -e out/a ]; then echo "DEFECT F14: 'xcp -g a missing out' exit $rc, out: $(ls out | tr '\n' ' ')(expected a refusal with nothing copied)"; exit 1; fi
+    echo "F14 ok (exit $rc)"; exit 0;;
 *) echo "unknown finding $WHICH"; exit 2;;
 esac
